@@ -65,7 +65,7 @@ def main(argv):
     plans = legb.plans_for(cases)
     ties = []
     wd = legb.Workdir()
-    found = {'K1': 0, 'K2': 0, 'K8': 0, 'K9': 0}
+    found = {'K1': 0, 'K2': 0, 'K8': 0, 'K9': 0, 'K10': 0}
     viol = []
     try:
         jobs = []
@@ -129,11 +129,20 @@ def main(argv):
         results = legb.parallel(work, jobs)
         # (f) prefixes coexist: one TU including the support sets of two prefixes
         from lib import run_impl
-        sets = [run_impl('build_worker', {'cases': [{'op': 'support', 'prefix': p}]})['results'][0]['ok'] for p in (None, ['Other'], ['A', 'B'])]
+        # ... among them prefixes that are prefixes of each other and prefixes that end in / consist of the library's own `Dzn`
+        prefixes = (None, ['Other'], ['A', 'B'], ['A'], ['Dzn'], ['A', 'B', 'Dzn'], ['Other', 'Dzn'], ['A_B'], ['dzn'])
+        sets = [run_impl('build_worker', {'cases': [{'op': 'support', 'prefix': p}]})['results'][0]['ok'] for p in prefixes]
         co = wd.sub('coexist')
         tu = ''
-        for s in sets:
+        seen_names = {}
+        for p, s in zip(prefixes, sets):
             for f in s:
+                if f[0] in seen_names and '_'.join(seen_names[f[0]] or []) == '_'.join(p or []):
+                    found['K10'] += 1      # different identifier lists, same '_'-joined string: known finding K10
+                elif f[0] in seen_names:
+                    viol.append((None, f'support headers generated with the namespace prefixes {seen_names[f[0]]} and {p} have the same file name {f[0]}: '
+                                       'the two sets cannot coexist in one program'))
+                seen_names.setdefault(f[0], p)
                 open(os.path.join(co, f[0]), 'w').write('#pragma once\n' + f[1])
                 tu += f'#include "{f[0]}"\n'
         open(os.path.join(co, 'all.cc'), 'w').write('#include <dzn/meta.hh>\n' + tu + 'int main() { return 0; }\n')
@@ -184,7 +193,7 @@ def main(argv):
     gate = proof_gate('C06')
     return rep.finish(gate, 'generated (model, configuration) pairs incl. a global-namespace encapsulee, an empty interface, a component '
                       'without ports, prefixes; per case: include closure, every header alone, every header twice, shell source, use '
-                      'from a second translation unit + link (all declared members used); support sets of three prefixes in one TU; '
+                      'from a second translation unit + link (all declared members used); support sets of nine prefixes in one TU; '
                       'distinct = distinct (model, configuration)', TRUSTED, ASSUME)
 
 
